@@ -23,6 +23,13 @@ func pathD(v ssa.Value, d int) (string, bool) {
 	}
 	switch x := v.(type) {
 	case *ssa.Parameter:
+		if paramAsIndex && x.Parent() != nil {
+			for i, p := range x.Parent().Params {
+				if p == x {
+					return fmt.Sprintf("$%d", i), true
+				}
+			}
+		}
 		return x.Name(), true
 	case *ssa.FreeVar:
 		// a captured cell: if the cell has a unique store, use the outer path
